@@ -28,7 +28,22 @@ Oracle (written from the statement, independent of the decorators' code):
     not again when is_transformed=True is passed) and entry k pairs with input coordinate k.
 `to_vector_yx` on a Grid1D is not implemented in the source and not claimed by the statement (not exercised).
 
-VALIDATED (tools/mutant.py, repository suite green unless noted, all caught by the quick tier): see `VALIDATED` below.
+VALIDATED against deliberate breaks on scratch worktrees (tools/mutant.py; every one was caught by the QUICK tier;
+"suite green" = the repository's 699 baseline tests still pass, i.e. only this check notices):
+  suite green, caught:
+   * to_array wraps Grid2D results on a mask rebuilt without the origin (same bits)                 -> grid2d.array.container
+   * to_vector_yx list results wrapped on a mask rebuilt without the origin                        -> grid2d.list.wrapped
+   * to_array list results truncated to the first two elements                                     -> grid2d.list.wrapped
+   * to_grid de-duplicates/sorts irregular results (np.unique)                                     -> irregular.grid.pairing
+   * to_vector_yx attaches the mask's pixel-centre grid instead of the input grid (deflected grids only) -> grid2d.vector.pairing
+   * radial move leaves y unscaled for points with negative y                                      -> radial.inside_radius
+   * radial move divides by (r + 1e-20) (visible only for radii ~1e-9 under the 1e-8 minimum)      -> radial.inside_radius
+   * transform skipped for Grid2DIrregular inputs                                                  -> transform.received
+  killed by the suite as well, caught here too:
+   * wrap with mask.derive_mask.all_false (single and list results); irregular results reversed (to_array always /
+     only beyond 6 points, to_grid); list order reversed (to_grid); x-only scaling in the radial move; divide by
+     (r + 1e-12); Array1D results without the 1-D mask (single and list); projection centre dropped (all / y only);
+     (y,x) swapped in VectorYX2DIrregular; |x| instead of x in the Grid1D projection
 """
 import numpy as np
 
@@ -42,8 +57,8 @@ RULE = ("a case = one input grid (Grid2D on a hostile mask up to 7x8 with anisot
         "every decorated method of the profile is called on it. distinct = distinct (grid kind, mask bits, coordinate "
         "values, profile class, centre, angle, tag coefficients); non-trivial = at least two coordinates with pairwise "
         "distinct tags (a single-coordinate grid cannot show a re-ordering) ")
-BOUNDS = {"quick": "600 Grid2D cases, 400 Grid2DIrregular cases, 400 Grid1D cases; masks up to 7x8",
-          "thorough": "12000 Grid2D cases, 8000 Grid2DIrregular cases, 8000 Grid1D cases; masks up to 7x8"}
+BOUNDS = {"quick": "2400 Grid2D cases, 1600 Grid2DIrregular cases, 1600 Grid1D cases; masks up to 7x8",
+          "thorough": "120000 Grid2D cases, 80000 Grid2DIrregular cases, 80000 Grid1D cases; masks up to 7x8"}
 EXHAUSTIVE = {"quick": False, "thorough": False}
 ASSUMPTIONS = [
     "entries are compared bit-exactly with the tag of the coordinate the probe received (containers must not alter values)",
@@ -68,8 +83,8 @@ RADIAL_MIN = {"VerifC17Small": 1e-8, "VerifC17Mid": 0.3, "VerifC17Big": 2.5}
 
 
 def plan(tier, seed):
-    n2, ni, n1 = (600, 400, 400) if tier == "quick" else (12000, 8000, 8000)
-    ch = 50 if tier == "quick" else 250
+    n2, ni, n1 = (2400, 1600, 1600) if tier == "quick" else (120000, 80000, 80000)
+    ch = 100 if tier == "quick" else 500
     units = []
     for kind, n, w in (("grid2d", n2, 2.0), ("irregular", ni, 1.0), ("grid1d", n1, 1.0)):
         for s in range(0, n, ch):
